@@ -10,6 +10,8 @@ pub mod c07;
 pub mod c08;
 pub mod c09;
 pub mod c10;
+pub mod c11;
+pub mod c12;
 pub mod c17;
 pub mod c18;
 pub mod c19;
@@ -26,6 +28,8 @@ pub fn dispatch(ctx: &Ctx, replay: Option<String>) -> ! {
         "C08" => c08::run(ctx, replay),
         "C09" => c09::run(ctx, replay),
         "C10" => c10::run(ctx, replay),
+        "C11" => c11::run(ctx, replay),
+        "C12" => c12::run(ctx, replay),
         "C17" => c17::run(ctx, replay),
         "C18" => c18::run(ctx, replay),
         "C19" => c19::run(ctx, replay),
